@@ -96,33 +96,46 @@ Qed.
 
 Lemma lexes_lit v rest w :
   simple_val v = true -> follow_ok rest = true -> lexes rest w ->
-  lexes (render v ++ rest) (lit_items v ++ w).
+  lexes (emit v ++ rest) (lit_items v ++ w).
 Proof.
   intros Hv Hf Hw. destruct (follow_facts rest Hf) as [F1 [F2 F3]].
   unfold simple_val in Hv. apply andb_true_iff in Hv. destruct Hv as [Hok Hfl].
   destruct v as [|b|z|s|bl|bits shown]; cbn [is_float negb] in Hfl; try discriminate.
-  - (* NULL *) cbn [render lit_items app]. apply (lexes_word 78 [85; 76; 76] rest w); try reflexivity; assumption.
-  - destruct b; cbn [render lit_items app].
+  - (* NULL *) change (emit VNull) with (render VNull). cbn [render lit_items app]. apply (lexes_word 78 [85; 76; 76] rest w); try reflexivity; assumption.
+  - destruct b; [change (emit (VBool true)) with (render (VBool true))|change (emit (VBool false)) with (render (VBool false))];
+      cbn [render lit_items app].
     + apply (lexes_word 84 [82; 85; 69] rest w); try reflexivity; assumption.
     + apply (lexes_word 70 [65; 76; 83; 69] rest w); try reflexivity; assumption.
   - (* integer *)
     cbn [val_ok] in Hok. apply andb_true_iff in Hok. destruct Hok as [H1 H2].
     apply Z.leb_le in H1. apply Z.leb_le in H2.
     cbn [lit_items]. destruct (z <? 0) eqn:Ez.
-    + apply (lexes_bridge (render (VInt z)) rest [(KMinus, [45]); (KInt, show_nat (- z))] w); [|exact Hw].
+    + assert (He : emit (VInt z) = 32 :: render (VInt z)).
+      { unfold emit. cbn [render]. unfold show_int. rewrite Ez. reflexivity. }
+      rewrite He. cbn [app].
+      pose proof (lexes_cons 32 (render (VInt z) ++ rest) KWs O) as Hc. cbn [firstn skipn] in Hc.
+      apply Hc; [reflexivity|].
+      apply (lexes_bridge (render (VInt z)) rest [(KMinus, [45]); (KInt, show_nat (- z))] w); [|exact Hw].
       intros f. rewrite (int_tokens_l z rest f (conj H1 H2) F2), Ez. destruct (lex_loop f rest); reflexivity.
-    + apply (lexes_of_loop (S (S (length rest)))).
+    + assert (He : emit (VInt z) = render (VInt z)).
+      { unfold emit. cbn [render]. unfold show_int. rewrite Ez.
+        destruct (show_nat_spec z) as [d [ds [E1 [E2 _]]]]; [unfold i64_min, i64_max in *; lia|].
+        rewrite E1. cbn [starts_with]. cbn [forallb] in E2. apply andb_true_iff in E2. destruct E2 as [E2 _].
+        unfold is_digit in E2. destruct (d =? 45) eqn:Ed; [apply Z.eqb_eq in Ed; subst d; discriminate|reflexivity]. }
+      rewrite He. apply (lexes_of_loop (S (S (length rest)))).
       rewrite (int_tokens_l z rest (length rest) (conj H1 H2) F2), Ez.
       rewrite (loop_of_lexes rest w Hw) by lia. reflexivity.
   - (* text *)
+    change (emit (VText s)) with (render (VText s)).
     cbn [lit_items]. apply (lexes_of_loop (S (length rest))).
     rewrite (text_one_token_l s rest (length rest) F1), (loop_of_lexes rest w Hw) by lia. reflexivity.
   - (* blob *)
+    change (emit (VBlob bl)) with (render (VBlob bl)).
     cbn [lit_items]. cbn [val_ok] in Hok. apply (lexes_of_loop (S (length rest))).
     rewrite (blob_one_token_l bl rest (length rest) Hok), (loop_of_lexes rest w Hw) by lia. reflexivity.
 Qed.
 
-Lemma lex_render v : simple_val v = true -> lex (render v) = Some (lit_items v).
+Lemma lex_render v : simple_val v = true -> lex (emit v) = Some (lit_items v).
 Proof.
   intros Hv. pose proof (lexes_lit v [] [] Hv eq_refl lexes_nil) as H.
   rewrite !app_nil_r in H. apply lexes_lex. exact H.
@@ -170,11 +183,11 @@ Proof.
       assert (Hgo : exists idx next,
                  subst_items ((k, txt) :: t) ps pidx =
                    match nth_error ps idx with
-                   | Some v => match subst_items t ps next with Some o => Some (render v ++ o) | None => None end
+                   | Some v => match subst_items t ps next with Some o => Some (emit v ++ o) | None => None end
                    | None => None end /\
                  expand_items ((k, txt) :: t) ps pidx =
                    match nth_error ps idx, expand_items t ps next with
-                   | Some v, Some r => match lex (render v) with Some li => Some (li ++ r) | None => None end
+                   | Some v, Some r => match lex (emit v) with Some li => Some (li ++ r) | None => None end
                    | _, _ => None end).
       { destruct k; try discriminate.
         - exists pidx, (S pidx). split; reflexivity.
